@@ -79,10 +79,19 @@ def write_evidence(rep: Report, checker_cmd: str):
         by_engine[k]["discharged"] += o["status"] == "discharged"
     units = {}
     for o in obl:
-        units.setdefault(o["unit"], o["solver_s"])
-    for o in obl:
-        k = f"{o['engine']}/{o['backend']}"
+        if o["unit"] not in units:
+            units[o["unit"]] = o["solver_s"]
+            k = f"{o['engine']}/{o['backend']}"
+            by_engine[k]["solver_s"] = round(by_engine[k]["solver_s"] + o["solver_s"], 1)     # one solver run per unit
     solver_total = round(sum(units.values()), 1)
+    if not rep.extra.get("explanation"):
+        try:
+            man = json.load(open(os.path.join(VERIF, "MANIFEST.json")))
+            me = [c for c in man.get("checks", []) if c.get("property_id") == rep.pid]
+            if me:
+                rep.extra["explanation"] = me[0]["level_claimed"]["text"] + "  NOT COVERED / TRUSTED: " + me[0].get("level_note", "")
+        except Exception:
+            pass
     rnd = random.Random(rep.seed)
     samples = []
     pool = [o for o in obl]
